@@ -352,7 +352,7 @@ MISC_STRINGS = ["", "~", "Infinity", "-Infinity", "+Infinity", "infinity", "INFI
                 "00", "007", "08", "1e0001", "1e-0001", "1E5", "1e+5", ".5", "5.", "-.5", "+5.", "5.e1", "٣", "1,5", "1 2", "0x 1",
                 "1e400", "-1e400", "1e-400", "-1e-400", "Infinityx", "Infinity1", "1n", "0x10n", "9007199254740993", "9007199254740992",
                 "4.9e-324", "2.4703282292062327e-324", "2.4703282292062328e-324", "2.47032822920623272e-324", "1.7976931348623158e308",
-                "1.7976931348623159e308", "179769313486231580793728971405303415079934132710037826936173778980444968292764750946649017977587207096330286416692887910946555547851940402630657488671505820681908902000708383676273854845817711531764475730270069855571366959622842914819860834936475292719074168444365510704342711559699508093042880177904174497791.999",
+                "1.7976931348623159e308", "0x-5", "0x+5", "0b-1", "0o+7", "0x_1", "0x1_0", "0X", "0b2", "0o9", "1e-", "+Infinity~", "Infinity~x", "179769313486231580793728971405303415079934132710037826936173778980444968292764750946649017977587207096330286416692887910946555547851940402630657488671505820681908902000708383676273854845817711531764475730270069855571366959622842914819860834936475292719074168444365510704342711559699508093042880177904174497791.999",
                 "0x7fffffffffffffff", "0x8000000000000000", "0xffffffffffffffff", "0x10000000000000000", "0b" + "1" * 64, "0o" + "7" * 22]
 
 
@@ -370,7 +370,7 @@ def gen_misc(rng, ops):
 
 def gen_ops(seed, shard, tier):
     rng = random.Random(seed * 1000003 + shard * 7919 + (17 if tier == "thorough" else 0))
-    f = 1 if tier == "quick" else 16
+    f = 1 if tier == "quick" else 8
     ops = []
     for (b, cls) in gen_doubles(rng, 420 * f):
         ops_for_double(rng, b, cls, ops)
@@ -465,6 +465,10 @@ def signature(op, res, verdict):
             return "toString(radix):negative-fraction:sign-dropped"
     if res == "TIMEOUT":
         why = "hang"
+    if w[0] == "num" and len(w) > 1:
+        t = w[1][2:].replace("~", " ").strip()
+        if len(t) > 3 and t[0] == "0" and t[1] in "xXoObB" and t[2] in "+-" and res not in ("7ff8000000000001", "7ff8000000000000"):
+            return "Number(string):sign-after-radix-prefix:accepted"
     if w[0] == "ftostr":
         return "ftostr-mode%s:%s" % (w[2], why)
     return "%s:%s" % (w[0], why)
@@ -537,7 +541,7 @@ def judge(ctx, harness, model, ops):
     return list(zip(ops, res, dl, verd)), None
 
 
-THEOREMS_MIN = 1
+THEOREMS_MIN = 10
 
 
 def main(ctx):
